@@ -122,3 +122,11 @@ Theorem float_key_spec : forall (w : nat) (u : N), (1 <= w)%nat -> u < 2 ^ (8 * 
   float_key w u = if u <? 2 ^ (8 * N.of_nat w - 1) then u else 3 * 2 ^ (8 * N.of_nat w - 1) - 1 - u.
 Proof. exact float_key_arith. Qed.
 Print Assumptions float_key_spec.
+
+(* the specification itself: nulls_first decides the place of nulls whatever the direction *)
+Theorem nulls_placement : forall (t : ftype) (o : opts) (a : value),
+  match t with TRee _ => False | _ => True end -> a <> VNull ->
+  cmp_field t o VNull a = (if nulls_first o then Lt else Gt) /\
+  cmp_field t o a VNull = (if nulls_first o then Gt else Lt).
+Proof. exact (fun t o a H N => conj (cmp_field_nl t o a H N) (cmp_field_ln t o a H N)). Qed.
+Print Assumptions nulls_placement.
